@@ -190,6 +190,48 @@ def run(ctx):
                                   {"input_bytes_hex": open(srcp, "rb").read().hex(), "inserted_hex": open(hdr, "rb").read().hex(),
                                    "options": {"newlines": "auto", opt: "<path of the inserted file>"}}, key=None, found_input=True)
         ctx.oblige("oracle: newlines=auto follows the input, not an inserted comment file (%d cases)" % icases, ibad == 0, "oracle")
+        # --- newlines=auto with several files in one invocation: every file gets ITS OWN most frequent terminator (the census is per file)
+        import shutil
+        import subprocess
+        bbad = bcases = 0
+        names = {b"\n": "lf", b"\r\n": "crlf", b"\r": "cr"}
+        for first_nl in names:
+            for second_nl in names:
+                for mode in ("args", "list"):
+                    d = os.path.join(sc.dir, "batch-%s-%s-%s" % (names[first_nl], names[second_nl], mode))
+                    os.makedirs(d, exist_ok=True)
+                    big = first_nl.join([b"int a%d;" % k for k in range(12)] + [b""])
+                    small = second_nl.join([b"int x;", b"void g(void)", b"{", b"  x = 1;", b"}", b""])
+                    mixed = second_nl.join([b"int m1;", b"int m2;", b"int m3;"]) + first_nl + b"int m4;" + second_nl
+                    fl = []
+                    for nm, data in (("f1.c", big), ("f2.c", small), ("f3.c", mixed), ("f4.c", small)):
+                        open(os.path.join(d, nm), "wb").write(data)
+                        fl.append(os.path.join(d, nm))
+                    cmd = [exe, "-q", "-c", sc.cfg(None, {"newlines": "auto"})]
+                    if mode == "list":
+                        open(os.path.join(d, "files.txt"), "w").write("\n".join(fl) + "\n")
+                        cmd += ["-F", os.path.join(d, "files.txt")]
+                    else:
+                        cmd += fl
+                    subprocess.run(cmd, stdout=subprocess.PIPE, stderr=subprocess.PIPE, timeout=60)
+                    bcases += 1
+                    ctx.case("batch:%s:%s:%s" % (names[first_nl], names[second_nl], mode))
+                    for q, want in zip(fl, (first_nl, second_nl, second_nl, second_nl)):
+                        o = q + ".uncrustify"
+                        if not os.path.exists(o):
+                            continue
+                        cnt = count_terms(open(o, "rb").read())
+                        if any(v for k, v in cnt.items() if k != names[want]):
+                            bbad += 1
+                            ctx.violation("newlines=auto, several files in one invocation: %s (most frequent terminator %s) is written with %s; files before it use %s"
+                                          % (os.path.basename(q), names[want], cnt, names[first_nl]),
+                                          {"files_hex": {os.path.basename(x): open(x, "rb").read().hex() for x in fl}, "mode": mode,
+                                           "how": "uncrustify -q -c cfg(newlines=auto) f1.c f2.c f3.c f4.c (or -F list); outputs are <file>.uncrustify"},
+                                          key=None, found_input=True)
+                            break
+                    shutil.rmtree(d, ignore_errors=True)
+        ctx.oblige("oracle: newlines=auto is decided per file when several files are formatted in one invocation (%d batches)" % bcases,
+                   bbad == 0, "oracle")
         ctx.oblige("direct oracles (stray CR/LF scan, conversion commutes, crlf = lf with terminators replaced)", obad == 0, "oracle",
                    "%d failures" % obad)
         if jobs:
